@@ -503,14 +503,22 @@ def operand_ty(body, op):
 
 
 def success_returns(body):
-    """blocks assigning _0 = Ok(..)/Some(..) aggregates (success returns of a Result/Option fn)"""
+    """blocks assigning the return place a success value: `_0 = Ok(..)/Some(..)` directly, or
+    `_0 = move tmp` with tmp's only definition being such an aggregate.
+    returns [(bb of the _0 store, statement holding the aggregate)]"""
     out = []
     for d in body.defs().get(0, []):
-        if d[0] == 's':
-            r = d[3]['r']
-            if r['k'] == 'agg' and r.get('var') in ('Ok', 'Some'):
-                out.append((d[1], d[3]))
+        if d[0] != 's':
+            continue
+        r = d[3]['r']
+        if r['k'] == 'agg' and r.get('var') in ('Ok', 'Some'):
+            out.append((d[1], d[3]))
+        elif r['k'] == 'use' and 'p' in r['o'] and len(r['o']['p']) == 1:
+            sd = body.single_def(r['o']['p'][0])
+            if sd is not None and sd[0] == 's' and sd[3]['r']['k'] == 'agg' and sd[3]['r'].get('var') in ('Ok', 'Some'):
+                out.append((d[1], sd[3]))
     return out
+
 
 
 # ------------------------------------------------------------------------------------------------
@@ -739,3 +747,57 @@ def ends(suffix):
 
 def has(*subs):
     return lambda e: all(s in e.show() for s in subs)
+
+
+# ------------------------------------------------------------------------------------------------
+# PANIC-SITES
+# ------------------------------------------------------------------------------------------------
+
+PANIC_CALL = re.compile(
+    r'(Option::<.*>::(unwrap|expect)|Result::<.*>::(unwrap|expect|unwrap_err|expect_err)|'
+    r'core::panicking::|std::rt::begin_panic|core::option::expect_failed|core::result::unwrap_failed|'
+    r'(core|std)::ops::Index<.*>>::index|(core|std)::ops::IndexMut<.*>>::index_mut|'
+    r'(core|std)::ops::Index::index|(core|std)::ops::IndexMut::index_mut|'
+    r'<impl \[T\]>::copy_from_slice|<impl \[T\]>::clone_from_slice|<impl \[T\]>::split_at(_mut)?|'
+    r'Vec::<.*>::(remove|swap_remove|insert|split_off|drain)|String::(remove|insert|insert_str|split_off|drain)|'
+    r'str>::split_at|VecDeque::<.*>::(remove)|RefCell::<.*>::(borrow|borrow_mut)|'
+    r'Duration::(from_secs_f64|from_secs_f32)|Instant::duration_since|SystemTime::duration_since'
+    r')$|^core::panicking::')
+PANIC_EXACT = re.compile(r'(::unwrap$|::expect$|core::panicking::|Index.*>::index(_mut)?$|::copy_from_slice$|Vec::<.*>::remove$)')
+
+
+def panic_sites(body, include_overflow=False, include_expansion=True):
+    """potential panic sites of a body: [(kind, bb, line, text, expr-of-interest)]"""
+    out = []
+    for cs in body.calls():
+        name = cs.callee
+        if re.search(r'(Option::<.*>::(unwrap|expect)$|Result::<.*>::(unwrap|expect|unwrap_err|expect_err)$)', name):
+            out.append(('unwrap', cs.bb, cs.ln, name, cs))
+        elif re.search(r'^core::panicking::|^std::rt::begin_panic|panic_fmt$|panic_display|unreachable_display', name):
+            out.append(('panic', cs.bb, cs.ln, name, cs))
+        elif re.search(r'ops::Index<.*>>::index$|ops::IndexMut<.*>>::index_mut$|ops::Index::index$|ops::IndexMut::index_mut$|SliceIndex<.*>>::index(_mut)?$', name):
+            out.append(('index', cs.bb, cs.ln, name, cs))
+        elif re.search(r'<impl \[T\]>::(copy_from_slice|clone_from_slice|split_at|split_at_mut)$|Vec::<.*>::(remove|swap_remove|split_off)$|'
+                       r'String::(remove|split_off|insert)$|str>::split_at$|<impl str>::split_at$', name):
+            out.append(('slice-op', cs.bb, cs.ln, name, cs))
+    for bi, t in body.terms():
+        if t['k'] == 'assert':
+            m = t['m']
+            if m in ('BoundsCheck',):
+                out.append(('bounds', bi, t.get('ln'), t['mm'], t))
+            elif m in ('DivisionByZero', 'RemainderByZero'):
+                out.append(('divzero', bi, t.get('ln'), t['mm'], t))
+            elif include_overflow and m in ('Overflow', 'OverflowNeg'):
+                out.append(('overflow', bi, t.get('ln'), t['mm'], t))
+    return out
+
+
+ITER_NEXT = re.compile(r'(Iterator>::next|Iterator::next|impl (std|core)::iter::Iterator for .*>::next|::next)$')
+
+
+def mentions_next(e):
+    """does the expression contain a call of Iterator::next (by declared trait method)?"""
+    for x in e.walk():
+        if x.k == 'call' and x.c is not None and x.c.declared.endswith('iter::Iterator::next'):
+            return x
+    return None
